@@ -88,6 +88,28 @@ fn is_user_ident(t: &Tok) -> bool {
     t.text.chars().all(|c| c.is_ascii_alphanumeric() || c == '_') && !reserved(&t.text)
 }
 
+/// A diagnostic kind's debug text with every quoted identifier mapped through the renaming
+/// (`RedeclarationError("r")` becomes `RedeclarationError("x_r")`): kinds are compared up to it.
+fn kind_renamed(kind: &str, map: &BTreeMap<String, String>) -> String {
+    let mut out = String::new();
+    let mut rest = kind;
+    while let Some(i) = rest.find('"') {
+        out.push_str(&rest[..=i]);
+        rest = &rest[i + 1..];
+        match rest.find('"') {
+            Some(j) => {
+                let name = &rest[..j];
+                out.push_str(map.get(name).map(|s| s.as_str()).unwrap_or(name));
+                out.push('"');
+                rest = &rest[j + 1..];
+            }
+            None => break,
+        }
+    }
+    out.push_str(rest);
+    out
+}
+
 fn rename(toks: &[Tok], map: &BTreeMap<String, String>) -> Vec<Tok> {
     toks.iter()
         .map(|t| {
@@ -227,7 +249,9 @@ pub fn oracle_with(case: &ProgCase, index: u64, ctx: &mut Ctx, gap_bound: usize)
         match observe(&text) {
             None => fail(ctx, "renaming", format!("renaming {}", label.trim_end_matches(char::is_numeric)), &text, "the renamed program is rejected or not analysed".into()),
             Some(o) => {
-                if let Some(d) = diff(&base, &o) {
+                let mut expect = base.clone();
+                expect.kinds = base.kinds.iter().map(|k| kind_renamed(k, m)).collect();
+                if let Some(d) = diff(&expect, &o) {
                     fail(ctx, "renaming", format!("renaming {}", label.trim_end_matches(char::is_numeric)), &text, d);
                 } else {
                     let mapped: Vec<(String, Type)> = base.symbols.iter().map(|(nm, ty)| (m.get(nm).cloned().unwrap_or_else(|| nm.clone()), ty.clone())).collect();
